@@ -194,6 +194,21 @@ addenda9 = {'C03': ' Flatten / Concat called with a spread list of lists [a nil 
 for k, v in addenda9.items():
     e = checks[k]
     checks[k] = (e[0], e[1], e[2] + v, e[3], e[4])
+addenda10 = {'C03': ' Every length 4-40 over three symbols; lists of 8, 9, 10, 16, 17, 33 distinct values followed by themselves / their last value / their mirror image.',
+ 'C04': ' The stream search also from mid-sized roots (9 distinct values, 16 with duplicates).',
+ 'C05': ' Operands of every length 5-16, all distinct and with repeats.',
+ 'C10': ' A size sweep: 1-70 subscriptions (publish, remove every third, publish, add three, publish).',
+ 'C12': ' A closed Handler reached through MonadIO.ObserveOn / SubscribeOn and Publisher.SubscribeOn drops the work; the Ask of the ask-mix scenarios is the sender\'s second submission (per-sender order), also with timeouts 0 and -1 ms.',
+ 'C13': ' Reply returns to the code that called it (what follows it in the effect runs); a reply made late by a helper goroutine; timeouts <= 0 against an actor that never replies.',
+ 'C14': ' YieldFromIO of an IO observed on a Handler whose effect itself performs a YieldFrom.',
+ 'C16': ' The shape sweep covers every (length <= 33, pool <= length+2) pair.',
+ 'C17': ' An empty but non-nil DefaultHeader.',
+ 'C18': ' The world\'s APIs carry a DefaultHeader and every history ends with APIMakeGet / APIMakePostJSONBody / APIMakeGet probes; 0-40 interceptors registered one by one or in one call (request, remove every third, request, add three, request).',
+ 'C19': ' Every length 5-40 (run-compositions into <= 3 parts and three fixed key patterns); a builder made with ThenWith(list...) from a caller-owned slice that is refilled afterwards.',
+ 'C20': ' Product types of every arity 1-12 with a value of another kind at each single position (NewCompData and a SumType pattern).'}
+for k, v in addenda10.items():
+    e = checks[k]
+    checks[k] = (e[0], e[1], e[2] + v, e[3], e[4])
 
 not_yet = "check not built yet in this round (see DESIGN.md §9 build order); no claim made"
 
